@@ -40,7 +40,7 @@ func (p params) name() string {
 	return fmt.Sprintf("%s/q%d/u%v/pre%v/%s/w%d/fc%v/P%d", p.Policy, p.QoS, p.Unrel, p.Predecl, strings.Join(p.Ops, ","), p.Writers, p.FailCode, p.P)
 }
 
-var alphabet = []string{"wA1", "wA2", "wB1", "w0", "F", "Z"}
+var alphabet = []string{"wA1", "wA2", "wB1", "wE", "w0", "F", "Z"}
 
 func histories(maxLen int) [][]string {
 	out := [][]string{{}}
@@ -110,7 +110,9 @@ func scenarios(tier string) []vlib.Scenario {
 		}
 	}
 	// three-step histories that let acknowledgements settle between the last write and Close
-	three := [][]string{{"wA1", "wB1", "Z"}, {"wA1", "F", "wB1"}, {"wA2", "wB1", "F"}, {"wB1", "wB1", "Z"}, {"wA1", "Z", "wA2"}, {"w0", "wA1", "F"}, {"wA1", "wA2", "wB1"}, {"wA2", "wA2", "wA1"}, {"wA2", "wA2", "Z"}}
+	three := [][]string{{"wA1", "wB1", "Z"}, {"wA1", "F", "wB1"}, {"wA2", "wB1", "F"}, {"wB1", "wB1", "Z"}, {"wA1", "Z", "wA2"}, {"w0", "wA1", "F"}, {"wA1", "wA2", "wB1"}, {"wA2", "wA2", "wA1"}, {"wA2", "wA2", "Z"},
+		// small writes after the threshold was exceeded once; points with empty payloads only
+		{"wB1", "wA1", "wA1"}, {"wB1", "wA1", "wA2"}, {"wE", "F", "wE"}, {"wE", "wE", "Z"}, {"wB1", "wE", "wA1"}}
 	for _, pol := range policies {
 		for _, h := range three {
 			add(params{Policy: pol, QoS: message.QoSReliable, Ops: h, Writers: 1})
@@ -138,6 +140,9 @@ func scenarios(tier string) []vlib.Scenario {
 		for _, pol := range policies {
 			add(params{Policy: pol, QoS: message.QoSReliable, Ops: []string{"wA1", "Fc", "wB1"}, Writers: 1})
 			add(params{Policy: pol, QoS: message.QoSReliable, Ops: []string{"wA2", "Fc", "F"}, Writers: 1})
+			// a Flush that follows an abandoned one must still wait for its own cut
+			add(params{Policy: pol, QoS: message.QoSReliable, Ops: []string{"wA1", "Fc", "wB1", "F"}, Writers: 1})
+			add(params{Policy: pol, QoS: message.QoSReliable, Ops: []string{"wA1", "Fm", "wB1", "F"}, Writers: 1, P: 1})
 			add(params{Policy: pol, QoS: message.QoSReliable, Ops: []string{"wA1", "wB1", "F", "F"}, Writers: 2, P: 1})
 			add(params{Policy: pol, QoS: message.QoSReliable, Ops: []string{"wA1", "F", "wA2", "F"}, Writers: 2, P: 1})
 			if tier == "thorough" {
@@ -325,6 +330,8 @@ func (w *world) doOp(ctx context.Context, up *iscp.Upstream, op string) {
 		mk(idA, "", "bb")
 	case "wB1":
 		mk(idB, "ccccc")
+	case "wE":
+		mk(idA, "")
 	case "w0":
 		mk(idA)
 	case "F":
@@ -339,6 +346,17 @@ func (w *world) doOp(ctx context.Context, up *iscp.Upstream, op string) {
 		w.snapshot(up, "before-flush")
 		cctx, cancel := vcontext.WithCancel(ctx)
 		cancel()
+		err := up.Flush(cctx)
+		w.flushErrs = append(w.flushErrs, err)
+		if err == nil {
+			acc, _ := w.accepted()
+			w.snapshotF(up, "after-flush-cancelled", acc)
+		}
+	case "Fm":
+		// the context is cancelled by another thread while the Flush is in flight (where exactly: schedule)
+		w.snapshot(up, "before-flush")
+		cctx, cancel := vcontext.WithCancel(ctx)
+		vsched.Go("h:canceller", func() { cancel() })
 		err := up.Flush(cctx)
 		w.flushErrs = append(w.flushErrs, err)
 		if err == nil {
